@@ -42,7 +42,24 @@ def _map_calls(tr, b):
 def run(facts, tr, rep):
     # shallow view: helper functions of the service and of its hand-written future are inlined (a `poll` split into
     # `poll_leading` / `poll_waiting`, a `lead()` method); the registry's methods stay calls and are found by role
-    facts, tr = facts.shallow, tr.shallow
+    # the registry's role functions (join = lookup + insert, removers = remove; found by what they do to the map that
+    # comes out of the lock) stay calls; every other private helper — including closure-taking ones, whose closures
+    # are inlined where they are invoked — is looked through
+    from ..inline import view_of
+    keep = set()
+    for b0 in facts.crates[CRATE].bodies:
+        if b0.kind != "fn":
+            continue
+        names0 = {m for (_c, m, _l) in _map_calls(tr, b0)}
+        if ("insert" in names0 and ({"get", "contains_key", "entry", "get_mut"} & names0)) or "remove" in names0 or "remove_entry" in names0:
+            keep.add(b0.def_)
+    # methods that only forward a key to a remover (a shared `cancel_registered`) keep their role too
+    for _round in range(2):
+        for b0 in facts.crates[CRATE].bodies:
+            if b0.kind == "fn" and b0.def_ not in keep and b0.impl and any(set(c0.targets_def()) & keep for c0 in graph(b0).calls()) \
+                    and any(facts.bodies.get(k_) is not None and facts.bodies[k_].impl and facts.bodies[k_].impl.get("self_ty") == b0.impl.get("self_ty") for k_ in keep):
+                keep.add(b0.def_)
+    facts, tr = view_of(facts, keep)
     sbs = service_call_bodies(facts, crate=CRATE)
     if not sbs:
         rep.anchor_missing("Service::call of the coalesce service")
